@@ -6,7 +6,7 @@ use crate::monitors::c05::member_args;
 use crate::rng::Rng;
 use crate::spec::{arity, VOCAB};
 
-pub const STREAMS: [&str; 8] = ["grammar", "mutate", "args3", "args2", "numeric", "special", "vocab", "multibyte"];
+pub const STREAMS: [&str; 9] = ["grammar", "mutate", "args3", "args2", "numeric", "special", "vocab", "multibyte", "longwords"];
 
 const HOSTILE: [char; 40] = [
     ' ', '\t', '\n', '\r', '(', ')', '!', ',', '-', '+', '/', '=', '%', '\\', '{', '}', '\'', '"', '0', '7', '8', '9', 'a', 'u', 'r', 'x', 'k', 'M', 's', 'd', ':', '@', '~', '#', ';', '*', '\u{e9}', '\u{1f600}',
@@ -84,6 +84,7 @@ pub fn count(stream: &str, thorough: bool, scale: f64) -> u64 {
         "special" => 2_000,
         "vocab" => if thorough { 150_000 } else { 20_000 },
         "multibyte" => if thorough { 50_000 } else { 8_000 },
+        "longwords" => if thorough { 200_000 } else { 30_000 },
         _ => 0,
     };
     ((base as f64) * scale).max(1.0) as u64
@@ -222,6 +223,31 @@ pub fn input(seed: u64, stream: &str, i: u64) -> String {
                 cs.truncate(cut);
             }
             cs.iter().collect()
+        }
+        "longwords" => {
+            // long words (up to ~300 bytes) of mixed ASCII / multi-byte characters in keyword and
+            // argument positions: error paths re-read and quote these words
+            let mb = ['\u{e9}', '\u{1f600}', '\u{4e2d}', 'a', '9', '-', '%', '\\', 'x', '\u{df}'];
+            let n = 1 + r.usize(120);
+            let mut w = String::new();
+            let lead = r.usize(4);
+            for _ in 0..lead {
+                w.push(*r.pick(&['a', '1', '-', '+']));
+            }
+            for _ in 0..n {
+                let lim = if r.chance(1, 2) { 3 } else { mb.len() };
+                w.push(mb[r.usize(lim)]);
+            }
+            let kws: Vec<&crate::spec::Kw> = VOCAB.iter().collect();
+            let kw = kws[r.usize(kws.len())];
+            match r.below(6) {
+                0 => w,
+                1 => format!("-{}", w),
+                2 => format!("-true {}", w),
+                3 => format!("{} {} -print", kw.word, w),
+                4 => format!("( {} '{}' )", kw.word, w),
+                _ => format!("{} f {}", kw.word, w),
+            }
         }
         "vocab" => {
             // C05-style members and corrupted members
